@@ -94,7 +94,12 @@ class ClassInfo:
 
     @property
     def is_dataclass(self):
-        return any(d.split('.')[-1] == 'dataclass' for d in self.decorators)
+        # typing.NamedTuple classes get the same field-by-field constructor
+        return any(d.split('.')[-1] == 'dataclass' for d in self.decorators) or self.is_namedtuple
+
+    @property
+    def is_namedtuple(self):
+        return any(b.split('.')[-1] == 'NamedTuple' for b in self.bases)
 
     def __repr__(self):
         return f'<class {self.qualname}>'
